@@ -106,13 +106,20 @@ def load_known():
 
 
 def is_known(prop, v, known):
+    """a known finding is identified by property + violation key + (when given) the exact query text and data hash:
+    a different input that violates the same property is NOT covered by the entry."""
     for k in known:
-        if k.get('property') != prop:
+        if k.get('property') != prop or k.get('status', 'open') != 'open':
             continue
-        if 'key' in k and k['key'] == v.get('key'):
-            return k
-        if 'key_regex' in k and re.search(k['key_regex'], v.get('key', '')):
-            return k
+        if 'key' in k and k['key'] != v.get('key'):
+            continue
+        if 'key_regex' in k and not re.search(k['key_regex'], v.get('key', '')):
+            continue
+        if 'query' in k and k['query'] != v.get('query'):
+            continue
+        if 'key' not in k and 'key_regex' not in k and 'query' not in k:
+            continue
+        return k
     return None
 
 
@@ -290,15 +297,20 @@ def regenerate_facts(mpv):
 
 
 def finish(prop, tier, seed, cfg, t0, cov, violations, broken, notes, known):
-    groups = group_violations(violations)
     new_lines = []
     known_lines = []
-    for key, g in sorted(groups.items()):
-        v = g['first']
+    fresh = []
+    for v in violations:
         kf = is_known(prop, v, known)
         if kf:
-            known_lines.append('KNOWN-FINDING: property=%s %s' % (prop, kf.get('what', key)))
-            continue
+            l = 'KNOWN-FINDING: property=%s %s' % (prop, kf.get('what', v.get('key')))
+            if l not in known_lines:
+                known_lines.append(l)
+        else:
+            fresh.append(v)
+    groups = group_violations(fresh)
+    for key, g in sorted(groups.items()):
+        v = g['first']
         path = write_replay(prop, hashlib.sha1(key.encode()).hexdigest()[:10], {'property': prop, 'violation': v, 'occurrences': g['count'],
                             'how_to_replay': 'bin/check %s --replay <this file>' % prop})
         new_lines.append('VIOLATION property=%s replay=%s' % (prop, path))
